@@ -144,7 +144,7 @@ def main():
             else:
                 f.write("%s: %s\n" % (name, " ".join("%s=%s" % (p, r[p][0]) for p in PROPS if p in r)))
                 for p in PROPS:
-                    if r[p][0] == "CONCRETE":
+                    if p in r and r[p][0] == "CONCRETE":
                         f.write("    %s CONCRETE: %s\n" % (p, r[p][2]))
     print("done in %.0fs -> %s" % (time.time() - t0, out))
 
